@@ -33,6 +33,42 @@ CLAIMS = {
         "note": "Reference simplex numbering (edges/facets/reference normals) is a frozen basix/UFC table in the rule because it lives outside UFL. Non-affine cells: guards only. " + TB,
         "technique": "abstract interpretation of the lowering handlers on a symbolic affine cell + exact / random-interpretation comparison with a vertex-based oracle",
     },
+    "C09": {
+        "level": "other",
+        "text": "JacobianCanceller, IdentityEliminator and ReciprocalCanceller (and their composition) are lifted as whole passes on a family of structured symbolic expressions over a symbolic Jacobian whose inverse carries the value of the true (pseudo-)inverse, for square and immersed geometries (K J = I always, J K = I only when square; transposed index patterns; different domains; nested / interchanged sums; identity contraction and folding; reciprocal powers incl. fractional outer exponents on negative bases); each result's meaning is compared exactly with the input's. Memo tables must be keyed by all inputs; substitution through binders is a structural rule. Known finding F9a (substitution captures a bound index) is reported as KNOWN-FINDING.",
+        "note": "Finite expression family (dims 2,3; ranks <= 2); traversal driver modelled in sa/passlift.py; bases of powers compared by identity in the model. " + TB,
+        "technique": "abstract interpretation of whole rewriting passes on structured symbolic expressions (dispatch resolved from the AST) + exact comparison of meanings; memo-key dataflow rule",
+    },
+    "C10": {
+        "level": "other",
+        "text": "remove_component_tensors, renumber_indices and expand_indices are lifted as whole passes on structured symbolic expressions (one Index object reused in sibling / nested scopes, fixed/free mixes, zeros with free indices of different dimensions, variables) and each result's meaning is compared exactly with the input's (up to the pass's own injective relabelling); IndexExpander's component / index-value stacks must be empty afterwards; binder hygiene of substituting MultiFunctions and label-keyed memos of context-sensitive transformers are structural rules. Known finding F10b is reported as KNOWN-FINDING.",
+        "note": "Finite expression family; traversal drivers (incl. the right-to-left order of the cut-off traversal) modelled in sa/passlift.py. " + TB,
+        "technique": "abstract interpretation of whole passes on structured symbolic expressions + exact comparison of meanings; structural binder-hygiene and memo rules",
+    },
+    "C19": {
+        "level": "other",
+        "text": "Structural necessary conditions decided on the AST: visited-set discipline and post-order yield placement in the six traversals, operand/result cache wiring and cut-off consistency in map_expr_dags, first-hit MRO handler resolution in MultiFunction/Transformer, memo-key completeness and injectivity in DAGTraverser.__call__, and handler exhaustiveness of all 40 algorithm classes (tables cross-checked against the live registries).",
+        "note": "Does not decide equivalence with the recursive definition (needs loop invariants of the traversals). " + TB,
+        "technique": "guard/dominance queries on the AST of the traversal and mapping functions; dispatch-table exhaustiveness; memo-key rule",
+    },
+    "C20": {
+        "level": "other",
+        "text": "Class-level handler caches are discovered by rule; each must re-validate the fetched entry against the live type registry on every read, size and fill its per-typecode table from the live registry (never an import-time snapshot), and key by the algorithm class; typecode-indexed subscripts are classified; DAGTraverser classes must dispatch through singledispatchmethod.",
+        "note": "Relies on CPython's singledispatch cache invalidation on register(); instances created before a registration and reused afterwards are out of scope. " + TB,
+        "technique": "dataflow rule on cache fetch/validate/rebuild sites and registry expressions (AST, resolved names)",
+    },
+    "C21": {
+        "level": "other",
+        "text": "Replacer is lifted as a whole pass on structured expressions x mappings (terminal, compound, zero and simultaneous images; restrictions, variables, conditionals) and the result's meaning compared with the substituted meaning; expressions without mapped terminals are returned unchanged; shape-changing mappings (also mixed with valid entries) raise; derivative handling and truthiness-of-image idioms checked.",
+        "note": "Images without free indices; terminals looked up by identity in the model. " + TB,
+        "technique": "abstract interpretation of the pass on structured symbolic expressions vs semantic substitution oracle",
+    },
+    "C23": {
+        "level": "other",
+        "text": "CheckComparisons is lifted on 27 operand shapes x 6 ordering constructs x 2 positions: whenever a comparison is accepted, the operand's lifted term must be real under complex data for possibly-complex terminals (soundness), every compared operand is wrapped in Real and the rewritten expression has the same meaning for real data; ComplexNodeRemoval lifted (conj/real removed, imag and complex literals raise); complex_mode guards of the pipeline checked on the AST.",
+        "note": "Completeness (accepting every real comparison) is not part of the property. " + TB,
+        "technique": "abstract interpretation of the passes + random interpretation of operand terms over complex/real data; AST guard checks",
+    },
     "C24": {
         "level": "other",
         "text": "evaluate() of each operator class (arithmetic, power, abs/conj/real/imag, 13 math functions via the name passed to MathFunction.__init__, atan2, min/max, the six comparisons, and/or/not, conditional, indexed, index sum, component tensor, list tensor, variable, restriction, grad, Identity, PermutationSymbol) is lifted from source on symbolic operands that reject ill-fitting components and unbound indices; for every component and free-index assignment the result must equal the entry of the node's mathematical value, and the index binding table must be restored.",
